@@ -139,3 +139,100 @@ Proof.
   - split; [eexists; split; [vm_compute; reflexivity|split; vm_compute; reflexivity]|].
     split; vm_compute; reflexivity.
 Qed.
+
+(** ** Source tie (tie G2): the tile-addressing functions of tms20/tms20.go are the model's.
+
+    REGENERATED on every run by translator/tmsaddr.go into gen/TmsAddrGen.v, statement by statement, from the bodies of
+    axisOrderIsLatLon, IsLatLon, ToXYPoint, TileMatrixSet.MatrixSize, FromNative, ToNative, MatrixBoundingBox (and
+    roundFloat): the two regular expressions of the orderedAxes fall-back (the locus of defect F15) as prefix tests and
+    the order in which they are tried, the OGC:CRS84 exception / the "epsg" test / the parse of the code / the look-up
+    in the EPSG table of IsLatLon, the fall-back from IsLatLon to axisOrderIsLatLon and the swap of ToXYPoint, the map
+    lookups and the refusal of a missing id, the panic on variable matrix widths / a nil point of origin / an
+    undeterminable axis order, the tile spans, both half-open tile tests of FromNative ([x < 0], [ux >= MatrixWidth], ...)
+    in both corner conventions (the switch with its default/fallthrough), the [>] (not [>=]) range test of ToNative and
+    its [Y + 1] for bottomLeft, the sizes and the corners of the bounding box.  The theorem says these definitions
+    EQUAL the hand-written model ([=], all inputs), through the fixed encodings of Go's result lists ([enc_tile]:
+    (nil, false) / (&Tile{zoom, x, y}, true); [enc_point]: (zero point, false) / (corner, true); [tm_at]: the zero tile
+    matrix for a missing id) of Tms/ProofsGenAddr.v.
+
+    TRUSTED reading (Tms/GoAddr.v): float64 arithmetic as EXACT arithmetic over Q ([+ - * /], [<] = [Qltb],
+    [float64(u)] = [inject_Z], [uint(f)] = truncation toward zero, shown to be the model's floor behind the [< 0] test);
+    uint / int as exact Z; pointers as options; the model's data types.  The float envelope is held by the run-time
+    correspondence C15, not by this theorem.
+    Stays MODELLED (mapped by the translator after checking the shape of the call / declaration in the AST):
+    crs.Authority() / .Version() / .Code() = [crs_avc], strings.ToLower = [to_lower], strconv.ParseUint(s, 10, 64) =
+    [parse_uint], fmt.Sprintf of %s verbs = concatenation, regexp `^(p1|p2|..)`.Match = "starts with one of",
+    epsgAxesAreLatLon[k] = the table regenerated into gen/TmsData.v, CALLS of roundFloat(f, 9) = f (the model does not
+    round; C15_source_tie_roundFloat bounds what the translated body does), slippy.NewTile / (geom.Point).X() / .Y(),
+    fmt.Errorf / errors.New as a returned error = [Error]. *)
+From Coq Require Import Qabs.
+From Texel Require Import Tms.GoAddr Tms.ProofsGenAddr.
+From Texel.Gen Require Import TmsAddrGen.
+
+Theorem C15_source_tie_addressing :
+  (forall a, gen_axisOrderIsLatLon a = axisOrderIsLatLon a) /\
+  (forall c, gen_IsLatLon c = isLatLon c) /\
+  (forall t p, gen_ToXYPoint t p = (do s <- tms_swaps t; Ok (toXY s p))) /\
+  (forall t z pt, gen_FromNative t z pt = enc_tile z (fromNative t z pt)) /\
+  (forall t z x y, gen_ToNative t (Some (z, x, y)) = enc_point (toNative t z (x, y))) /\
+  (forall t z, gen_MatrixSize t z = if vmw_nonempty (tm_at t z) then Panic else Ok (matrixSizeTM (tm_at t z))) /\
+  (forall t z, gen_MatrixBoundingBox t z = matrixBoundingBox t z).
+Proof. exact source_tie_addressing. Qed.
+Print Assumptions C15_source_tie_addressing.
+
+(** the same against the per-matrix functions the theorems above are about *)
+Theorem C15_source_tie_addressing_tm : forall t z m s p,
+  find_tm z (t_matrices t) = Some m -> vmw_nonempty m = false ->
+  tm_origin m = Some p -> tms_swaps t = Ok s ->
+  let o := toXY s (qpoint p) in
+  (forall pt, gen_FromNative t z pt = enc_tile z (Ok (fromNativeTM m o pt))) /\
+  (forall x y, gen_ToNative t (Some (z, x, y)) = enc_point (Ok (toNativeTM m o (x, y)))) /\
+  gen_MatrixSize t z = Ok (matrixSizeTM m) /\
+  gen_MatrixBoundingBox t z = Ok (matrixBBoxTM m o).
+Proof. exact source_tie_addressing_tm. Qed.
+Print Assumptions C15_source_tie_addressing_tm.
+
+(** roundFloat is translated as well ([math.Round] = nearest integer, halves away from zero; [math.Pow(10, p)] = 10^p,
+    exact); its CALLS in the functions above are the identity of the model, and that is within half a unit of the
+    last kept decimal of what the translated body returns: the rounding of the implementation cannot move a corner by
+    more than 5e-10 (CoordPrecision = 9) in exact arithmetic *)
+Theorem C15_source_tie_roundFloat :
+  (forall f p, exists r, gen_roundFloat f p = Ok r /\ (Qabs (r - f) <= (1 # 2) / pow10Q p)%Q) /\
+  (forall f, exists r, gen_roundFloat f gen_tms20_CoordPrecision = Ok r /\ (Qabs (r - f) <= 1 # 2000000000)%Q).
+Proof. exact (conj gen_roundFloat_near gen_roundFloat_near_9). Qed.
+Print Assumptions C15_source_tie_roundFloat.
+
+(** the regenerated code runs: WGS1984Quad (lat/lon, origin swapped to (-180, 90)), matrix 3: the tile of a point, the
+    corner of tile (5, 2), a point left of the matrix, a missing matrix; the bottom-left test document: the top-left
+    corner of tile (1, 1) and the bounding box of its 2 x 4 matrix of 256 x 256 tiles; the axis order of EPSG:28992
+    (x, y), EPSG:4326 (lat, lon), OGC:CRS84 and of the orderedAxes fall-back (regression of F15); rounding *)
+Example C15_source_tie_example : exists t t',
+  decodeTMS gen_doc_WGS1984Quad = Ok t /\
+  decodeTMS gen_testdoc_SomethingWithBottomLeftAndLatLonAndDoubleHeight = Ok t' /\
+  gen_FromNative t 3 ((-180 + 45 * 5 / 2 + 1)%Q, (90 - 45 * 2 / 2 - 1)%Q) = Ok (Some (3, 5, 2), true) /\
+  gen_FromNative t 3 ((-181)%Q, 0%Q) = Ok (None, false) /\
+  gen_FromNative t 99 (0%Q, 0%Q) = Ok (None, false) /\
+  (exists c, gen_ToNative t (Some (3, 5, 2)) = Ok (c, true) /\ Qeq2 c ((-135 # 2)%Q, 45%Q)) /\
+  gen_ToNative t (Some (3, 17, 0)) = Ok ((0%Q, 0%Q), false) /\
+  (exists c, gen_ToNative t' (Some (0, 1, 1)) = Ok (c, true) /\ Qeq2 c (256 # 1, 512 # 1)%Q) /\
+  (exists bl tr, gen_MatrixBoundingBox t' 0 = Ok (bl, tr) /\ Qeq2 bl (0%Q, 0%Q) /\ Qeq2 tr (512 # 1, 1024 # 1)%Q) /\
+  gen_MatrixBoundingBox t' 7 = Error /\
+  gen_IsLatLon (CrsURI "" "http://www.opengis.net/def/crs/EPSG/0/28992" true) = Ok false /\
+  gen_IsLatLon (CrsURI "" "urn:ogc:def:crs:EPSG::4326" false) = Ok true /\
+  gen_IsLatLon (CrsURI "" "http://www.opengis.net/def/crs/OGC/1.3/CRS84" true) = Ok false /\
+  gen_IsLatLon (CrsURI "" "http://www.opengis.net/def/crs/EPSG/0/1" true) = Error /\
+  gen_IsLatLon (CrsRef "" []) = Panic /\
+  gen_axisOrderIsLatLon (Some ["X"; "Y"]%string) = Ok false /\ gen_axisOrderIsLatLon (Some ["Lat"; "Lon"]%string) = Ok true /\
+  gen_axisOrderIsLatLon (Some ["E"]%string) = Error /\ gen_axisOrderIsLatLon (Some ["up"; "down"]%string) = Error /\
+  (exists r, gen_roundFloat (12345678915 # 10000000000) 9 = Ok r /\ (r == 1234567892 # 1000000000)%Q) /\
+  (exists r, gen_roundFloat (- (5 # 10000000000)) 9 = Ok r /\ (r == - (1 # 1000000000))%Q).
+Proof.
+  eexists. eexists. split; [vm_compute; reflexivity|]. split; [vm_compute; reflexivity|].
+  split; [vm_compute; reflexivity|]. split; [vm_compute; reflexivity|]. split; [vm_compute; reflexivity|].
+  split; [eexists; split; [vm_compute; reflexivity|split; vm_compute; reflexivity]|].
+  split; [vm_compute; reflexivity|].
+  split; [eexists; split; [vm_compute; reflexivity|split; vm_compute; reflexivity]|].
+  split; [eexists; eexists; split; [vm_compute; reflexivity|split; split; vm_compute; reflexivity]|].
+  repeat (split; [vm_compute; reflexivity|]).
+  split; eexists; (split; [vm_compute; reflexivity|vm_compute; reflexivity]).
+Qed.
